@@ -12,11 +12,11 @@ TIMER = {'test': 'TestVerifTimer', 'comp': 'timer', 'quick': {'VERIF_N': 200, 'V
          'thorough': {'VERIF_N': 4000, 'VERIF_OPS': 40}, 'seeds': {'quick': 1, 'thorough': 4}, 'corpus_glob': 'timer_*.ops'}
 
 
-ASND = {'test': 'TestVerifAssocSender', 'comp': 'as', 'quick': {'VERIF_N': 60, 'VERIF_OPS': 150},
+ASND = {'test': 'TestVerifAssocSender', 'comp': 'as', 'quick': {'VERIF_N': 150, 'VERIF_OPS': 200},
         'thorough': {'VERIF_N': 600, 'VERIF_OPS': 300}, 'seeds': {'quick': 1, 'thorough': 8}}
 
 
-def e2e(mode, test, nq=60, nt=1500):
+def e2e(mode, test, nq=300, nt=1500):
     return {'test': test, 'comp': 'e2e', 'mode': mode, 'scenario': True, 'quick': {'VERIF_N': nq},
             'thorough': {'VERIF_N': nt}, 'seeds': {'quick': 1, 'thorough': 8}}
 
@@ -24,10 +24,10 @@ def e2e(mode, test, nq=60, nt=1500):
 E2E_T = e2e('transfer', 'TestVerifE2ETransfer')
 E2E_PR = e2e('pr', 'TestVerifE2EPR')
 E2E_SD = e2e('shutdown', 'TestVerifE2EShutdown')
-E2E_HS = e2e('handshake', 'TestVerifE2EHandshake', nq=192, nt=3000)
+E2E_HS = e2e('handshake', 'TestVerifE2EHandshake', nq=384, nt=3000)
 E2E_RS = e2e('reset', 'TestVerifE2EReset')
 E2E_API = e2e('api', 'TestVerifE2EAPI')
-E2E_TD = e2e('teardown', 'TestVerifE2ETeardown', nq=150, nt=2000)
+E2E_TD = e2e('teardown', 'TestVerifE2ETeardown', nq=400, nt=2000)
 
 E2E_RULE = ('one case = one seeded scenario (options x initial TSNs x streams/policies x message sizes x per-packet fault schedule x heal time) run on a real '
             'association pair under testing/synctest virtual time; distinct by SHA-1 of its full API+wire log; non-trivial = at least 3 distinct event kinds and 5 events')
